@@ -88,6 +88,9 @@ func AnalyzeMetrics15sShortcut(script *logql_parser.LogQLScript) bool {
 		if ppl.Drop != nil {
 			return false
 		}
+		if ppl.LabelFormat != nil {
+			return false
+		}
 		if ppl.LineFilter != nil {
 			str, err := ppl.LineFilter.Val.Unquote()
 			if str != "" || err != nil {
